@@ -7,7 +7,9 @@ patch=$(readlink -f "$1"); prop=$2; shift 2
 wt=$(mktemp -d /tmp/mt-XXXXXX); rmdir $wt
 git -C /repo worktree add -q --detach $wt HEAD || exit 2
 cd $wt
-git apply "$patch" 2>/dev/null || git apply -3 "$patch" 2>/dev/null || patch -p1 -F3 -s < "$patch" || { echo "patch does not apply"; cd /; git -C /repo worktree remove --force $wt; exit 2; }
+# a ported patch (same change re-expressed on HEAD after a later fix rewrote the lines) takes precedence
+[ -f "$(dirname "$patch")/ported_to_head.diff" ] && patch="$(dirname "$patch")/ported_to_head.diff"
+git apply "$patch" 2>/dev/null || { git checkout -q -- . ; patch -p1 -F3 -s < "$patch" ; } || { echo "patch does not apply"; cd /; git -C /repo worktree remove --force $wt; exit 2; }
 out=$(mktemp /tmp/trymutant-XXXXXX.out)
 cd /verif && VERIF_REPO=$wt ./check "$prop" --no-evidence "$@" > $out 2>&1
 rc=$?
